@@ -97,6 +97,8 @@ func (p *proxy) call(ctx erpc.UnknownCallCtx) (interface{}, *erpc.Status) {
 		settings = make([]erpc.MessageSetting, 0, 16)
 	)
 	label.SessionID = ctx.Session().ID()
+	// the body is forwarded as received: tell the backend how it is encoded
+	settings = append(settings, erpc.WithBodyCodec(ctx.GetBodyCodec()))
 	ctx.VisitMeta(func(key, value []byte) {
 		settings = append(settings, erpc.WithAddMeta(string(key), string(value)))
 	})
@@ -132,6 +134,8 @@ func (p *proxy) push(ctx erpc.UnknownPushCtx) *erpc.Status {
 		settings = make([]erpc.MessageSetting, 0, 16)
 	)
 	label.SessionID = ctx.Session().ID()
+	// the body is forwarded as received: tell the backend how it is encoded
+	settings = append(settings, erpc.WithBodyCodec(ctx.GetBodyCodec()))
 	ctx.VisitMeta(func(key, value []byte) {
 		settings = append(settings, erpc.WithAddMeta(string(key), string(value)))
 	})
